@@ -90,6 +90,45 @@ void __wrap_free(void *p)
 	take(p, &n);              /* blocks not in the table (libc's vasprintf, pre-region blocks) pass through */
 	__real_free(p);
 }
+#ifdef VERIF_WRAP_MORE
+/* allocation entry points the library does not use today but a change may introduce: strndup, reallocarray,
+   asprintf / vasprintf (linked with -Wl,--wrap=strndup,--wrap=reallocarray,--wrap=asprintf,--wrap=vasprintf) */
+#include <stdarg.h>
+char *__real_strndup(const char *, size_t);
+void *__real_reallocarray(void *, size_t, size_t);
+int __real_vasprintf(char **, const char *, va_list);
+char *__wrap_strndup(const char *s, size_t n)
+{
+	char *p;
+	if (should_fail()) return NULL;
+	p = __real_strndup(s, n);
+	if (p && active) put(p, strlen(p) + 1);
+	return p;
+}
+void *__wrap_reallocarray(void *old, size_t a, size_t b)
+{
+	if (b != 0 && a > (size_t) -1 / b) return NULL;
+	return __wrap_realloc(old, a * b);
+}
+int __wrap_vasprintf(char **out, const char *fmt, va_list ap)
+{
+	int r;
+	if (should_fail()) { *out = NULL; return -1; }
+	r = __real_vasprintf(out, fmt, ap);
+	if (r >= 0 && *out && active) put(*out, (size_t) r + 1);
+	return r;
+}
+int __wrap_asprintf(char **out, const char *fmt, ...)
+{
+	va_list ap; int r;
+	if (should_fail()) { *out = NULL; return -1; }
+	va_start(ap, fmt);
+	r = __real_vasprintf(out, fmt, ap);
+	va_end(ap);
+	if (r >= 0 && *out && active) put(*out, (size_t) r + 1);
+	return r;
+}
+#endif
 FILE *__wrap_fopen(const char *path, const char *mode)
 {
 	FILE *f;
@@ -112,10 +151,22 @@ int __wrap_fclose(FILE *f)
 	if (active && open_files) --open_files;
 	return __real_fclose(f);
 }
+/* raw descriptors (open, dup, pipe ... without a FILE): counted at the beginning and at the end of the region; a
+   descriptor that is open at the end, was not open at the beginning and does not belong to a FILE still counted in
+   open_files is reported as one more open file */
+#include <fcntl.h>
+static int fds_at_begin;
+static int verif_count_fds(void)
+{
+	int fd, n = 0;
+	for (fd = 0; fd < 1024; ++fd) if (fcntl(fd, F_GETFD) != -1) ++n;
+	return n;
+}
 void verif_alloc_begin(unsigned long k)
 {
 	memset(tab, 0, sizeof(tab));
 	requests = live_blocks = open_files = failed_req = 0; live_bytes = peak_bytes = 0;
+	fds_at_begin = verif_count_fds();
 	fail_at = k; active = 1;
 }
 /* the driver's own allocations inside the region (buffers it hands to the
@@ -128,7 +179,10 @@ unsigned long verif_alloc_files(void) { return open_files; }
 unsigned long verif_alloc_requests(void) { return requests; }
 void verif_alloc_end(FILE *out)
 {
+	long extra_fds;
 	active = 0;
+	extra_fds = (long) verif_count_fds() - (long) fds_at_begin - (long) open_files;
+	if (extra_fds > 0) open_files += (unsigned long) extra_fds;
 	fprintf(out, " ALLOC req=%lu live=%lu bytes=%zu peak=%zu files=%lu failed=%lu",
 	        requests, live_blocks, live_bytes, peak_bytes, open_files, failed_req);
 }
